@@ -539,7 +539,7 @@ def questionProbe : List (List Question) :=
 /-- `(referral, authZone, qname)` triples the compiled `progressingReferral` and
 `CompareSuffix(referral, authZone)` are evaluated on: proper, self, self in
 another case, upward, root, sideways, string-suffix look-alike, off path,
-referral = qname, escaped dot, from the root. -/
+referral = qname, escaped dot, from the root, equal head over a different middle label. -/
 def referralProbe : List (String × String × String) :=
   [("sub.evil.test.", "evil.test.", "x.sub.evil.test."),
    ("evil.test.", "evil.test.", "x.sub.evil.test."),
@@ -551,7 +551,8 @@ def referralProbe : List (String × String × String) :=
    ("other.evil.test.", "evil.test.", "x.sub.evil.test."),
    ("x.sub.evil.test.", "evil.test.", "x.sub.evil.test."),
    ("x\\.evil.test.", "evil.test.", "y.x\\.evil.test."),
-   ("test.", ".", "www.victim.test.")]
+   ("test.", ".", "www.victim.test."),
+   ("sub.x.evil.test.", "sub.y.evil.test.", "sub.x.evil.test.")]
 
 /-- On the probe tables the compiled functions and the model agree value for
 value (regenerated on every run: a change of the compiled comparison in either
